@@ -2108,7 +2108,21 @@ func (p *parser) parseCallOrConversion(fun ast.Expr, isCmd bool) *ast.CallExpr {
 	p.exprLev--
 	var noParenEnd token.Pos
 	if isCmd {
-		noParenEnd = p.pos
+		// the call ends just after its last token (not at the next token, which
+		// would include trailing blanks or a comment in the node's span)
+		switch {
+		case rparen != token.NoPos:
+			noParenEnd = rparen + 1
+		case ellipsis.IsValid():
+			noParenEnd = ellipsis + 3 // len("...")
+		case len(list) > 0:
+			noParenEnd = list[len(list)-1].End()
+		default:
+			noParenEnd = fun.End()
+		}
+		if !noParenEnd.IsValid() {
+			noParenEnd = p.pos
+		}
 	} else if rparen == token.NoPos {
 		rparen = p.expectClosing(token.RPAREN, "argument list")
 	}
